@@ -68,7 +68,12 @@ Section Spec.
      EMPTY / UNCHANGED (Attr(default=MISSING) means "no default") *)
   Definition wf_class (sentinel : V -> bool) (check : name -> V -> bool) : Prop :=
     NoDup (map fst (c_attrs cd)) /\
-    forall n dv, default_of cd n = Some dv -> sentinel dv = false /\ check n dv = true.
+    (forall n dv, default_of cd n = Some dv -> sentinel dv = false /\ check n dv = true) /\
+    (* metadata.attrs is what build_attr_spec makes of the class text: where a
+       SPEC class (re)defines a managed name as a spec_property, Attr.invalidated_by
+       is the property's own; a plain subclass leaves the metadata alone and is
+       consulted when the map is built (Desc.builder_inv) *)
+    (forall n a, attr_of cd n = Some a -> Some (builder_inv cd n a) = decl_inv cd n).
 
   (* ---------------------------------------------------------------- decidable
      versions, used by the correspondence oracle on the implementation's
